@@ -114,10 +114,11 @@ Definition ctrl_commit (s : mst) (f : frame) : mst * list act * bool :=
   let '(s1, ok) := sql_commit s in
   if ok then (s1, SqlCommitOk :: map Publish (snd f), true) else (s1, [SqlCommitFail], false).
 
-(* BeginTX returns {parent: c, hasTx: true}; LockLedger returns {parent: c} i.e. hasTx = FALSE (suspect S-31a).
-   [fx] = the proposed repair (fx = true): LockLedger propagates c.hasTx. *)
+(* BeginTX returns {parent: c, hasTx: true}; LockLedger returns {parent: c, hasTx: c.hasTx}.
+   [pf] ("pre-fix") = true selects the HISTORICAL behaviour before the repair of finding KF-C31-first-write-event-before-commit
+   (LockLedger returned {parent: c}, i.e. hasTx = false: suspect S-31a).  The model tied to the code is pf = false. *)
 Definition begin_frame : frame := (true, []).
-Definition lock_frame (fx : bool) (parent : frame) : frame := (fx && fst parent, []).
+Definition lock_frame (pf : bool) (parent : frame) : frame := (negb pf && fst parent, []).
 
 (* ---------- controllerFacade.<write> = handleState(dryRun, fn) ----------
    StateInUse: fn(c.Controller) -- the root events object, store on the *bun.DB.
@@ -126,7 +127,7 @@ Definition lock_frame (fx : bool) (parent : frame) : frame := (fx && fst parent,
               setval x2 (the prelude) ; fn(lockedCtrl) ; dryRun ? ctrl.Rollback : (ctrl.Commit ; state := in-use).
    The facade overrides the seven write methods and Import; BeginTX, Commit, Rollback, LockLedger and every read are
    inherited (suspect S-11: an atomic bulk calls the inherited BeginTX and never goes through handleState). *)
-Definition facade_write (fx : bool) (s : mst) (w : write) : mst * list act * wres :=
+Definition facade_write (pf : bool) (s : mst) (w : write) : mst * list act * wres :=
   if negb (initializing s) then
     let '(s1, _, tr, r) := ev_write [root] false s w in (s1, tr, r)
   else
@@ -134,7 +135,7 @@ Definition facade_write (fx : bool) (s : mst) (w : write) : mst * list act * wre
     | WFailEarly => (s, [SqlBegin; SqlRollback], RsErr)
     | _ =>
       let txf := begin_frame in
-      let '(s1, stk, tr, r) := ev_write [lock_frame fx txf; txf; root] true s w in
+      let '(s1, stk, tr, r) := ev_write [lock_frame pf txf; txf; root] true s w in
       let txf' := nth 1 stk txf in
       match r with
       | RsErr => (s1, SqlBegin :: tr ++ [SqlRollback], RsErr)
@@ -158,24 +159,24 @@ Fixpoint bulk_atomic_elems (cont : bool) (stk : list frame) (s : mst) (err : boo
          (s2, stk2, tr ++ tr2, err2)
   end.
 
-Fixpoint bulk_plain_elems (fx cont : bool) (s : mst) (err : bool) (ws : list write) : mst * list act * bool :=
+Fixpoint bulk_plain_elems (pf cont : bool) (s : mst) (err : bool) (ws : list write) : mst * list act * bool :=
   match ws with
   | [] => (s, [], err)
   | w :: r =>
-    if err && negb cont then bulk_plain_elems fx cont s err r
-    else let '(s1, tr, x) := facade_write fx s {| w_dry := false; w_out := w_out w |} in
-         let '(s2, tr2, err2) := bulk_plain_elems fx cont s1 (err || negb (res_ok x)) r in
+    if err && negb cont then bulk_plain_elems pf cont s err r
+    else let '(s1, tr, x) := facade_write pf s {| w_dry := false; w_out := w_out w |} in
+         let '(s2, tr2, err2) := bulk_plain_elems pf cont s1 (err || negb (res_ok x)) r in
          (s2, tr ++ tr2, err2)
   end.
 
 (* Bulker.Run: atomic => ctrl.BeginTX on the facade (inherited => root events object) ; run ; hasError ? Rollback : Commit.
    processElement always passes DryRun: false. *)
-Definition bulk (fx atomic cont : bool) (s : mst) (ws : list write) : mst * list act :=
+Definition bulk (pf atomic cont : bool) (s : mst) (ws : list write) : mst * list act :=
   if atomic then
     let '(s1, stk, tr, err) := bulk_atomic_elems cont [begin_frame; root] s false ws in
     if err then (s1, SqlBegin :: tr ++ [SqlRollback])
     else let '(s2, ctr, _) := ctrl_commit s1 (nth 0 stk begin_frame) in (s2, SqlBegin :: tr ++ ctr)
-  else let '(s1, tr, _) := bulk_plain_elems fx cont s false ws in (s1, tr).
+  else let '(s1, tr, _) := bulk_plain_elems pf cont s false ws in (s1, tr).
 
 (* ---------- operations and histories ---------- *)
 Inductive eop :=
@@ -184,25 +185,28 @@ Inductive eop :=
 | OFailCommit (n : nat)       (* harness: arm the COMMIT fault switch *)
 | ODisarm.                    (* harness: switch off *)
 
-Definition eop_run (fx : bool) (s : mst) (o : eop) : mst * list act :=
+Definition eop_run (pf : bool) (s : mst) (o : eop) : mst * list act :=
   match o with
-  | OWrite w => let '(s1, tr, _) := facade_write fx s w in (s1, tr)
-  | OBulk a c ws => bulk fx a c s ws
+  | OWrite w => let '(s1, tr, _) := facade_write pf s w in (s1, tr)
+  | OBulk a c ws => bulk pf a c s ws
   | OFailCommit n => (with_cfail s (Some n), [])
   | ODisarm => (with_cfail s None, [])
   end.
 
-Fixpoint run_ops (fx : bool) (s : mst) (ops : list eop) : mst * list act :=
+Fixpoint run_ops (pf : bool) (s : mst) (ops : list eop) : mst * list act :=
   match ops with
   | [] => (s, [])
-  | o :: r => let '(s1, tr) := eop_run fx s o in let '(s2, tr2) := run_ops fx s1 r in (s2, tr ++ tr2)
+  | o :: r => let '(s1, tr) := eop_run pf s o in let '(s2, tr2) := run_ops pf s1 r in (s2, tr ++ tr2)
   end.
 
 Definition fresh (init : bool) : mst := {| initializing := init; next_log := 1; cfail := None |}.
-Definition trace_of (fx init : bool) (ops : list eop) : list act := snd (run_ops fx (fresh init) ops).
+(* the model of the code *)
+Definition trace_of (init : bool) (ops : list eop) : list act := snd (run_ops false (fresh init) ops).
 (* same, on a ledger whose log sequence stands at [n] (the harness prepares in-use ledgers with a few writes) *)
-Definition trace_from (fx init : bool) (n : Z) (ops : list eop) : list act :=
-  snd (run_ops fx {| initializing := init; next_log := n; cfail := None |} ops).
+Definition trace_from (init : bool) (n : Z) (ops : list eop) : list act :=
+  snd (run_ops false {| initializing := init; next_log := n; cfail := None |} ops).
+(* historical variant (before the LockLedger repair); no longer tied to the code *)
+Definition trace_pre_fix (init : bool) (ops : list eop) : list act := snd (run_ops true (fresh init) ops).
 
 (* ---------- the property as an executable judgement on a trace ----------
    pending = logs appended inside the open top-level transaction; ready = logs made durable by a COMMIT whose
@@ -280,12 +284,14 @@ Definition scenario (c : sctx) (o : sout) : bool * list eop :=
   | CAtomicBulkInit => (true, arm ++ [OBulk true cont bulk_ws])
   | CPlainBulkInit => (true, arm ++ [OBulk false cont bulk_ws])
   end.
-Definition scenario_trace (fx : bool) (c : sctx) (o : sout) : list act :=
-  trace_of fx (fst (scenario c o)) (snd (scenario c o)).
+Definition scenario_trace (c : sctx) (o : sout) : list act :=
+  trace_of (fst (scenario c o)) (snd (scenario c o)).
+Definition scenario_trace_pre_fix (c : sctx) (o : sout) : list act :=
+  trace_pre_fix (fst (scenario c o)) (snd (scenario c o)).
 
-(* verdict of the faithful model on the grid: the event is published inside the still-open outer transaction exactly
-   when a write SUCCEEDS through the first-write path of handleState (LockLedger object has hasTx = false) *)
-Definition scenario_expected (c : sctx) (o : sout) : verdict :=
+(* verdict of the PRE-FIX model on the grid: the event was published inside the still-open outer transaction exactly
+   when a write SUCCEEDED through the first-write path of handleState (LockLedger object had hasTx = false) *)
+Definition scenario_expected_pre_fix (c : sctx) (o : sout) : verdict :=
   match c, o with
   | CFirstWrite, SOk | CFirstWrite, SCommitFail => VBeforeCommit 1
   | CPlainBulkInit, (SOk | SFail | SDry | SCommitFail) => VBeforeCommit 1
